@@ -144,6 +144,18 @@ static void incrCase(Rng &rng, CaseResult &r) {
     m.updateCellPos(i, np);
     pos[i] = np;
     ++done;
+    if (k == nUpd / 2) {
+      // a copy taken in the middle of the history is an independent model with the same value
+      IncrNetModel mc = m;
+      if (mc.value() != m.value()) r.fail("C09:copy-of-the-model-differs", "value() of a copy differs");
+      int j = (int)rng.range(0, (long long)subset.size() - 1);
+      mc.updateCellPos(j, pos[j] + 7);
+      std::vector<int> p2 = pos;
+      p2[j] += 7;
+      long long refc = scratch1d(c, xAxis, subset, p2), refm = scratch1d(c, xAxis, subset, pos);
+      if (mc.value() != refc) r.fail("C09:copy-of-the-model-differs", "after an update of the copy: value()=" + std::to_string(mc.value()) + " from-scratch=" + std::to_string(refc));
+      if (m.value() != refm) r.fail("C09:copy-of-the-model-differs", "an update of the copy changed the original: value()=" + std::to_string(m.value()) + " from-scratch=" + std::to_string(refm));
+    }
     try { m.check(); } catch (const std::exception &e) { r.fail("C09:incr-check-failed", std::string(e.what()) + " after update " + std::to_string(k + 1)); }
     long long v2 = m.value(), ref2 = scratch1d(c, xAxis, subset, pos);
     if (v2 != ref2) r.fail("C09:incr-value-after-update", "after update " + std::to_string(k + 1) + ": value()=" + std::to_string(v2) + " from-scratch=" + std::to_string(ref2));
